@@ -152,6 +152,12 @@ def run(chk):
             chk.fail("worker-writes-no-shared-state", q, f"reachable from the integration worker and writes module state {tgt}: `{text}`",
                      where=f"{f.module.relpath}:{ln}", instance=tgt)
         sw = [] if ctor_ok(f) else E.self_writes(f)
+        # memoisation idiom: `self.X[key] = value.copy()` in a function that also answers `return self.X[key].copy()` for the same key:
+        # the stored value is a function of the key (completeness of the key and copy-on-read/write are decided under C17), so the
+        # cache content cannot change a result whatever the schedule
+        ftxt = " ".join(ast.unparse(f.node).split())
+        sw = [(attr, text, ln) for attr, text, ln in sw
+              if not (text.startswith(f"self.{attr}[key] = ") and text.rstrip().endswith(".copy()") and f"return self.{attr}[key].copy()" in ftxt)]
         for attr, text, ln in sw:
             chk.fail("worker-writes-no-shared-state", q, f"reachable from the integration worker and writes object state self.{attr}: `{text}` - "
                      f"state kept in a worker process differs from the sequential run", where=f"{f.module.relpath}:{ln}", instance=f"self.{attr}")
